@@ -47,6 +47,17 @@ theorem feed_run {P : APlan} {c c' : Ctl} {l : List AEv} {o : AEv} (h : Run P c 
     · exact tryStep_run (tryStep_run h _) _
     · exact h
   · exact visStep_run h hf
+  · exact visStep_run h hf
+  · exact visStep_run h hf
+  · refine visStep_run ?_ hf
+    split
+    · exact tryStep_run h _
+    · exact h
+  · refine visStep_run ?_ hf
+    split
+    · exact tryStep_run (tryStep_run h _) _
+    · exact h
+  · exact visStep_run (tryStep_run h _) hf
   · split at hf
     · rename_i c'' hv
       cases hf
@@ -78,130 +89,37 @@ theorem acceptsLog_sound {P : APlan} {l : List AEv} (h : acceptsLog P l = true) 
     exact ⟨c, by simpa using feedAll_run Run.init hc, h⟩
   · cases h
 
-/-! ### which step emitted an event -/
+/-! ### which step emitted an event
+
+Each lemma is a look at every clause of `step`. -/
 
 theorem step_ret_cases {P : APlan} {c c' : Ctl} {lb : Lbl} {op : AOp} {v : Bool}
     (hs : step P c lb = some (c', some (.ret op v))) :
     (c.caller = .holding op ∧ op ≠ .dispatch) ∨ (c.caller = .spawned ∧ op = .dispatch) ∨
-    (∃ r, c.caller = .inTl r ∧ op = .wait) ∨ (c.caller = .polled v ∧ op = .running) := by
+    (∃ r, c.caller = .inTl r ∧ op = .wait) ∨ (c.caller = .polled v ∧ op = .running) ∨
+    (c.caller = .inSetup [] ∧ op = .setup) := by
   obtain ⟨data, job, caller, n⟩ := c
-  cases lb with
-  | call op' => cases caller <;> simp [step] at hs
-  | acquire =>
-    cases caller <;> simp only [step] at hs <;> try (cases hs)
-    split at hs
-    · cases hs
-    · split at hs <;> cases hs
-  | poll =>
-    cases caller <;> simp only [step] at hs <;> try (cases hs)
-    rename_i op'
-    cases op' <;> simp only at hs <;> try (cases hs)
-    cases data <;> cases job <;> simp only at hs <;> cases hs
-  | spawn =>
-    cases caller <;> simp only [step] at hs <;> try (cases hs)
-    rename_i op'
-    cases op' <;> simp only at hs <;> cases hs
-  | ret =>
-    cases caller <;> simp only [step] at hs <;> try (cases hs)
-    · rename_i op'
-      cases op' <;> simp only at hs <;> cases hs <;> simp
-    · simp
-    · split at hs
-      · cases hs; simp
-      · cases hs
-    · simp
-  | tlEv e =>
-    cases caller <;> simp only [step] at hs <;> try (cases hs)
-    split at hs <;> cases hs
-  | jobEv e =>
-    cases job <;> simp only [step] at hs <;> try (cases hs)
-    split at hs <;> cases hs
-  | send =>
-    cases job <;> simp only [step] at hs <;> try (cases hs)
-    split at hs <;> cases hs
-  | observe =>
-    cases caller <;> simp only [step] at hs <;> try (cases hs)
-    split at hs <;> cases hs
+  cases lb <;> simp only [step] at hs <;> (repeat' (split at hs)) <;> (try cases hs) <;> simp_all
+
+/-- `wait` returns only when the thread-local task is through -/
+theorem step_ret_inTl {P : APlan} {c c' : Ctl} {lb : Lbl} {op : AOp} {v : Bool} {r : RTask Nat}
+    (hs : step P c lb = some (c', some (.ret op v))) (hc : c.caller = .inTl r) : r.nullable = true := by
+  obtain ⟨data, job, caller, n⟩ := c
+  simp only at hc
+  subst hc
+  cases lb <;> simp only [step] at hs <;> (repeat' (split at hs)) <;> (try cases hs) <;> simp_all
 
 theorem step_sys_cases {P : APlan} {c c' : Ctl} {lb : Lbl} {th : Th} {d : Nat} {e : Ev Nat}
     (hs : step P c lb = some (c', some (.sys th d e))) :
-    th = .worker ∧ d = c.nDisp - 1 ∧ ∃ r, c.job = .running r := by
+    th = .worker ∧ d = c.nDisp - 1 ∧ ((∃ r, c.job = .running r) ∨ ∃ r ps, c.job = .failed r ps false) := by
   obtain ⟨data, job, caller, n⟩ := c
-  cases lb with
-  | call op' => cases caller <;> simp [step] at hs
-  | acquire =>
-    cases caller <;> simp only [step] at hs <;> try (cases hs)
-    split at hs
-    · cases hs
-    · split at hs <;> cases hs
-  | poll =>
-    cases caller <;> simp only [step] at hs <;> try (cases hs)
-    rename_i op'
-    cases op' <;> simp only at hs <;> try (cases hs)
-    cases data <;> cases job <;> simp only at hs <;> cases hs
-  | spawn =>
-    cases caller <;> simp only [step] at hs <;> try (cases hs)
-    rename_i op'
-    cases op' <;> simp only at hs <;> cases hs
-  | ret =>
-    cases caller <;> simp only [step] at hs <;> try (cases hs)
-    · rename_i op'
-      cases op' <;> simp only at hs <;> cases hs
-    · split at hs <;> cases hs
-  | tlEv e =>
-    cases caller <;> simp only [step] at hs <;> try (cases hs)
-    split at hs <;> cases hs
-  | jobEv e =>
-    cases job <;> simp only [step] at hs <;> try (cases hs)
-    split at hs
-    · cases hs; exact ⟨rfl, rfl, _, rfl⟩
-    · cases hs
-  | send =>
-    cases job <;> simp only [step] at hs <;> try (cases hs)
-    split at hs <;> cases hs
-  | observe =>
-    cases caller <;> simp only [step] at hs <;> try (cases hs)
-    split at hs <;> cases hs
+  cases lb <;> simp only [step] at hs <;> (repeat' (split at hs)) <;> (try cases hs) <;> simp_all
 
 theorem step_tl_cases {P : APlan} {c c' : Ctl} {lb : Lbl} {th : Th} {e : Ev Nat}
     (hs : step P c lb = some (c', some (.tl th e))) :
     th = .caller ∧ ∃ r, c.caller = .inTl r := by
   obtain ⟨data, job, caller, n⟩ := c
-  cases lb with
-  | call op' => cases caller <;> simp [step] at hs
-  | acquire =>
-    cases caller <;> simp only [step] at hs <;> try (cases hs)
-    split at hs
-    · cases hs
-    · split at hs <;> cases hs
-  | poll =>
-    cases caller <;> simp only [step] at hs <;> try (cases hs)
-    rename_i op'
-    cases op' <;> simp only at hs <;> try (cases hs)
-    cases data <;> cases job <;> simp only at hs <;> cases hs
-  | spawn =>
-    cases caller <;> simp only [step] at hs <;> try (cases hs)
-    rename_i op'
-    cases op' <;> simp only at hs <;> cases hs
-  | ret =>
-    cases caller <;> simp only [step] at hs <;> try (cases hs)
-    · rename_i op'
-      cases op' <;> simp only at hs <;> cases hs
-    · split at hs <;> cases hs
-  | tlEv e =>
-    cases caller <;> simp only [step] at hs <;> try (cases hs)
-    split at hs
-    · cases hs; exact ⟨rfl, _, rfl⟩
-    · cases hs
-  | jobEv e =>
-    cases job <;> simp only [step] at hs <;> try (cases hs)
-    split at hs <;> cases hs
-  | send =>
-    cases job <;> simp only [step] at hs <;> try (cases hs)
-    split at hs <;> cases hs
-  | observe =>
-    cases caller <;> simp only [step] at hs <;> try (cases hs)
-    split at hs <;> cases hs
+  cases lb <;> simp only [step] at hs <;> (repeat' (split at hs)) <;> (try cases hs) <;> simp_all
 
 /-- a `quiet` event is emitted by `observe` only: between two operations, with no system of
 the job inside `run` or still to be started; the control state is left alone -/
@@ -209,43 +127,49 @@ theorem step_quiet_cases {P : APlan} {c c' : Ctl} {lb : Lbl}
     (hs : step P c lb = some (c', some .quiet)) :
     c.caller = .ready ∧ c.job.quiet = true ∧ c' = c := by
   obtain ⟨data, job, caller, n⟩ := c
-  cases lb with
-  | call op' => cases caller <;> simp [step] at hs
-  | acquire =>
-    cases caller <;> simp only [step] at hs <;> try (cases hs)
-    split at hs
-    · cases hs
-    · split at hs <;> cases hs
-  | poll =>
-    cases caller <;> simp only [step] at hs <;> try (cases hs)
-    rename_i op'
-    cases op' <;> simp only at hs <;> try (cases hs)
-    cases data <;> cases job <;> simp only at hs <;> cases hs
-  | spawn =>
-    cases caller <;> simp only [step] at hs <;> try (cases hs)
-    rename_i op'
-    cases op' <;> simp only at hs <;> cases hs
-  | ret =>
-    cases caller <;> simp only [step] at hs <;> try (cases hs)
-    · rename_i op'
-      cases op' <;> simp only at hs <;> cases hs
-    · split at hs <;> cases hs
-  | tlEv e =>
-    cases caller <;> simp only [step] at hs <;> try (cases hs)
-    split at hs <;> cases hs
-  | jobEv e =>
-    cases job <;> simp only [step] at hs <;> try (cases hs)
-    split at hs <;> cases hs
-  | send =>
-    cases job <;> simp only [step] at hs <;> try (cases hs)
-    split at hs <;> cases hs
-  | observe =>
-    cases caller <;> simp only [step] at hs <;> try (cases hs)
-    split at hs
-    · rename_i hq
-      cases hs
-      exact ⟨rfl, hq, rfl⟩
-    · cases hs
+  cases lb <;> simp only [step] at hs <;> (repeat' (split at hs)) <;> (try cases hs) <;> simp_all
+
+/-- a panic of an ordinary system: a step of the job, the system is inside its window -/
+theorem step_sysP_cases {P : APlan} {c c' : Ctl} {lb : Lbl} {th : Th} {d x : Nat}
+    (hs : step P c lb = some (c', some (.sysP th d x))) :
+    th = .worker ∧ d = c.nDisp - 1 ∧ c'.data = c.data ∧ c'.caller = c.caller ∧
+    ((∃ r, c.job = .running r ∧ (opens r).contains x = true ∧ c'.job = .failed r [x] false) ∨
+     ∃ r ps, c.job = .failed r ps false ∧ (opens r).contains x = true ∧ c'.job = .failed r (x :: ps) false) := by
+  obtain ⟨data, job, caller, n⟩ := c
+  cases lb <;> simp only [step] at hs <;> (repeat' (split at hs)) <;> (try cases hs) <;> simp_all
+  rename_i h
+  exact ⟨_, _, ⟨rfl, rfl⟩, h.1, rfl, rfl⟩
+
+/-- a panic of a thread-local system: inside `wait`, the system is inside its window; `Data`, the
+job and the dispatch count are left alone -/
+theorem step_tlP_cases {P : APlan} {c c' : Ctl} {lb : Lbl} {th : Th} {x : Nat}
+    (hs : step P c lb = some (c', some (.tlP th x))) :
+    th = .caller ∧ (∃ r, c.caller = .inTl r ∧ (opens r).contains x = true) ∧
+    c' = { c with caller := .tlFailed } := by
+  obtain ⟨data, job, caller, n⟩ := c
+  cases lb <;> simp only [step] at hs <;> (repeat' (split at hs)) <;> (try cases hs) <;> simp_all
+
+/-- a call unwinds: "Sender dropped" (the job has failed and its sender is gone; any of the nine
+methods), or a thread-local system has panicked inside `wait`; nothing but the caller changes -/
+theorem step_unwound_cases {P : APlan} {c c' : Ctl} {lb : Lbl} {op : AOp}
+    (hs : step P c lb = some (c', some (.unwound op))) :
+    c' = { c with caller := .ready } ∧
+    ((c.caller = .called op ∧ c.data = .rx ∧ ∃ r ps, c.job = .failed r ps true) ∨
+     (c.caller = .tlFailed ∧ op = .wait)) := by
+  obtain ⟨data, job, caller, n⟩ := c
+  cases lb <;> simp only [step] at hs <;> (repeat' (split at hs)) <;> (try cases hs) <;> simp_all
+
+theorem step_hook_cases {P : APlan} {c c' : Ctl} {lb : Lbl} {th : Th} {x : Nat}
+    (hs : step P c lb = some (c', some (.hook th x))) :
+    th = .caller ∧ ∃ rest, c.caller = .inSetup (x :: rest) ∧ c' = { c with caller := .inSetup rest } := by
+  obtain ⟨data, job, caller, n⟩ := c
+  cases lb <;> simp only [step] at hs <;> (repeat' (split at hs)) <;> (try cases hs) <;> simp_all
+
+theorem step_gone_cases {P : APlan} {c c' : Ctl} {lb : Lbl}
+    (hs : step P c lb = some (c', some .gone)) :
+    c.caller = .ready ∧ (∃ r ps, c.job = .failed r ps true) ∧ c' = c := by
+  obtain ⟨data, job, caller, n⟩ := c
+  cases lb <;> simp only [step] at hs <;> (repeat' (split at hs)) <;> (try cases hs) <;> simp_all
 
 /-! ### quiescence -/
 
@@ -280,6 +204,7 @@ theorem inv_quiescent_quiet {P : APlan} {c : Ctl} {l : List AEv} (hi : Inv P c l
     | running r => exact traces_of_derivs hcur.2 hq
     | idle => exact hcur (by omega)
     | sent => exact hcur (by omega)
+    | failed r ps g => simp [Job.quiet] at hq
 
 theorem quiescent_none_open {P : APlan} {l : List AEv} {k : Nat} (h : Quiescent P l k) (d x : Nat) :
     ¬ OpenAt l d x := by
@@ -295,11 +220,29 @@ theorem quiescent_once {P : APlan} {l : List AEv} {k : Nat} (h : Quiescent P l k
     (projD d l).count (Ev.F x) = 1 ∧ (projD d l).count (Ev.D x) = 1 :=
   traces_once (h.1 d hd) hnd x hx
 
+theorem exists_sysP_of_any {l : List AEv} (h : l.any isSysP = true) : ∃ th d x, AEv.sysP th d x ∈ l := by
+  obtain ⟨a, ha, hp⟩ := List.any_eq_true.mp h
+  cases a <;> simp [isSysP] at hp
+  exact ⟨_, _, _, ha⟩
+
+/-- once a system of a job has panicked the job is `failed` and `Data` is `Rx` — for ever -/
+theorem inv_failed {P : APlan} {c : Ctl} {l : List AEv} (hi : Inv P c l) {th : Th} {d x : Nat}
+    (hp : AEv.sysP th d x ∈ l) : c.data = .rx ∧ (∃ r ps g, c.job = .failed r ps g) ∧ d + 1 = c.nDisp := by
+  have hf := hi.fail_iff
+  rw [any_sysP_of_mem hp] at hf
+  have hdj := hi.data_job
+  have hd := hi.fail_disp th d x hp
+  obtain ⟨data, job, caller, n⟩ := c
+  cases job <;> simp [Job.isFailed] at hf
+  cases data <;> simp [dataOk] at hdj
+  exact ⟨rfl, ⟨_, _, _, rfl⟩, hd⟩
+
 /-! ### the caller is inside `op`: the last call/return event is `call op` -/
 
 def AEv.isCallRet : AEv → Bool
   | .call _ => true
   | .ret _ _ => true
+  | .unwound _ => true
   | _ => false
 
 theorem pending_some_aux (l : List AEv) : ∀ (p : Option AOp) (op : AOp), pending l p = some op →
@@ -345,6 +288,43 @@ theorem pending_some_aux (l : List AEv) : ∀ (p : Option AOp) (op : AOp), pendi
         · rfl
         · exact h2 x hx
       · right; exact ⟨AEv.quiet :: l0, l0', by simp [h1], h2⟩
+    | unwound op' =>
+      simp only [pending] at h
+      rcases ih _ _ h with ⟨h1, _⟩ | ⟨l0, l0', h1, h2⟩
+      · cases h1
+      · right; exact ⟨AEv.unwound op' :: l0, l0', by simp [h1], h2⟩
+    | sysP th d x =>
+      simp only [pending] at h
+      rcases ih _ _ h with ⟨h1, h2⟩ | ⟨l0, l0', h1, h2⟩
+      · left; refine ⟨h1, fun y hy => ?_⟩
+        rcases List.mem_cons.mp hy with rfl | hy
+        · rfl
+        · exact h2 y hy
+      · right; exact ⟨AEv.sysP th d x :: l0, l0', by simp [h1], h2⟩
+    | tlP th x =>
+      simp only [pending] at h
+      rcases ih _ _ h with ⟨h1, h2⟩ | ⟨l0, l0', h1, h2⟩
+      · left; refine ⟨h1, fun y hy => ?_⟩
+        rcases List.mem_cons.mp hy with rfl | hy
+        · rfl
+        · exact h2 y hy
+      · right; exact ⟨AEv.tlP th x :: l0, l0', by simp [h1], h2⟩
+    | hook th x =>
+      simp only [pending] at h
+      rcases ih _ _ h with ⟨h1, h2⟩ | ⟨l0, l0', h1, h2⟩
+      · left; refine ⟨h1, fun y hy => ?_⟩
+        rcases List.mem_cons.mp hy with rfl | hy
+        · rfl
+        · exact h2 y hy
+      · right; exact ⟨AEv.hook th x :: l0, l0', by simp [h1], h2⟩
+    | gone =>
+      simp only [pending] at h
+      rcases ih _ _ h with ⟨h1, h2⟩ | ⟨l0, l0', h1, h2⟩
+      · left; refine ⟨h1, fun y hy => ?_⟩
+        rcases List.mem_cons.mp hy with rfl | hy
+        · rfl
+        · exact h2 y hy
+      · right; exact ⟨AEv.gone :: l0, l0', by simp [h1], h2⟩
 
 theorem pending_some {l : List AEv} {op : AOp} (h : pending l none = some op) :
     ∃ l0 l0', l = l0 ++ .call op :: l0' ∧ ∀ x, x ∈ l0' → x.isCallRet = false := by
